@@ -11,7 +11,7 @@ from paramiko.server import InteractiveQuery
 from vf.authkit import (AUTH_FAILED, AUTH_PARTIALLY_SUCCESSFUL, AUTH_SUCCESSFUL, MSG_USERAUTH_INFO_RESPONSE,
                         MSG_USERAUTH_REQUEST, MSG_USERAUTH_SUCCESS, FenceTimeout, Rd, Sess, Short, episodes, sstr,
                         started, u32)
-from vf.g2kit import RekeySess, RekeyTrouble, wait_until
+from vf.g2kit import ParkCtl, RekeySess, RekeyTrouble, parking_tap, wait_until
 from vf.props.c14 import KRB5_OID, install_gss_stub
 
 META = dict(
@@ -121,6 +121,16 @@ def install_wrappers():
 
         wrapped.__name__ = fn.__name__
         table[ptype] = wrapped
+    # round 5: the four reply-type handlers of the transport (bound into each instance's table at construction,
+    # so the class attributes are wrapped before any victim exists)
+    for name in ("_parse_request_success", "_parse_request_failure", "_parse_channel_open_success",
+                 "_parse_channel_open_failure"):
+        def wrapped_reply(self, m, _fn=getattr(_ptr.Transport, name), _name=name):
+            Probe.add("dispatch:" + _name, id(self._channels), None)
+            return _fn(self, m)
+
+        wrapped_reply.__name__ = name
+        setattr(_ptr.Transport, name, wrapped_reply)
     orig_q = _ptr.Transport._queue_incoming_channel
 
     def queue(self, channel):
@@ -284,6 +294,7 @@ def judge(ctx, sess, desc, pmark, since_n, control=False, prefix=None, context="
     ctx.count(prefix + "channel_handler_evaluations_seen", len([e for e in mine if e[0].startswith("handler:")]))
     ctx.count(prefix + "feed_evaluations_seen", len([e for e in mine if e[0] in ("handler:_feed", "handler:_feed_extended")]))
     ctx.count(prefix + "accept_queue_entries_seen", len(v.server_accepts))
+    ctx.count(prefix + "reply_handler_dispatches_seen", len([e for e in mine if e[0].startswith("dispatch:")]))
     positive = [o for ep in eps for o in ep["out"] if o["type"] in FORBIDDEN_REPLIES]
     ctx.count(prefix + "positive_replies_seen", len(positive))
     ctx.count(prefix + "probe_episodes", len(eps))
@@ -312,6 +323,14 @@ def judge(ctx, sess, desc, pmark, since_n, control=False, prefix=None, context="
     wit = dict(session=desc, victim_replies=[(o["type"], o["payload"][:40]) for ep in eps for o in ep["out"]][:12],
                callbacks=[(c["name"], c["args"]) for c in cbs][:8], wrappers=[(e[0], e[2]) for e in mine][:12],
                victim_exception=repr(v.saved_exception))
+    # round 5: state a reply-type message would leave behind had it reached its handler
+    ctx.count("reply_state_checks")
+    if getattr(v, "global_response", None) is not None:
+        ctx.violation("pre-auth REQUEST_SUCCESS stored as the transport's global response" + context,
+                      "Transport.global_response holds a message from an unauthenticated client", wit)
+    if isinstance(v.saved_exception, paramiko.ChannelException):
+        ctx.violation("pre-auth CHANNEL_OPEN_FAILURE saved a ChannelException on the transport" + context,
+                      "Transport.saved_exception was set from an unauthenticated client's CHANNEL_OPEN_FAILURE", wit)
     for c in cbs:
         ctx.violation("pre-auth callback %s reached via message type %s%s" % (c["name"], trig(c["n"]), context),
                       "the server consulted its application about a connection-layer request before authentication succeeded", wit)
@@ -328,7 +347,7 @@ def judge(ctx, sess, desc, pmark, since_n, control=False, prefix=None, context="
         break
 
 
-def run_session(ctx, rng, desc, context=""):
+def run_session(ctx, rng, desc, context="", tally=None):
     point = desc["point"]
     sess = started(lambda: Sess(rng, policy=policy_for(point)), lambda s: s.start(auth=False))
     if sess is None:
@@ -349,6 +368,8 @@ def run_session(ctx, rng, desc, context=""):
                 read_any = True
                 ctx.count("probes_read_by_victim")
                 ctx.count("probe_type_%d" % t)
+                if tally:
+                    ctx.count(tally + str(t))
             if st == "dead":
                 ctx.count("victim_ended_after_probe")
                 break
@@ -381,6 +402,10 @@ def run_control(ctx, rng):
         sess.step(80, sstr("tcpip-forward") + b"\x01" + sstr("127.0.0.1") + u32(0))
         sess.step(80, sstr("cancel-tcpip-forward") + b"\x01" + sstr("127.0.0.1") + u32(4022))
         sess.step(80, sstr("keepalive@openssh.com") + b"\x01")
+        sess.step(81, u32(8080))
+        sess.step(82, b"")
+        sess.step(91, u32(99) + u32(0) + u32(1 << 21) + u32(32768))
+        sess.step(92, u32(99) + u32(1) + sstr("no") + sstr("en"))
         judge(ctx, sess, dict(kind="control"), pmark, since_n, control=True)
         ctx.count("control_sessions")
     except FenceTimeout as e:
@@ -915,6 +940,167 @@ def run_counting_stratum(ctx, rng, deadline):
     ctx.require("conn_request_pipelined_directly_behind_tenth_failure", 3)
 
 
+# ---------------------------------------------------------------------------
+# round 5 (a): reply-type connection messages (81, 82, 91, 92) and channel messages for never-allocated ids
+
+REPLY_TYPES = (81, 82, 91, 92)
+REPLY_POINTS = ["after_newkeys", "after_service_accept", "after_failed_auth", "after_partial_auth", "after_pk_query",
+                "mid_keyboard_interactive"]
+
+
+def reply_probes(rng, last):
+    out = []
+    for t in REPLY_TYPES:
+        for rep in range(2):
+            chan = rng.choice([0, 1, 2, 7, 0xFFFFFFFF])
+            if t == 81:
+                body = rng.choice([b"", u32(8080), u32(0)])
+            elif t == 82:
+                body = b""
+            elif t == 91:
+                body = u32(chan) + u32(rng.randrange(4)) + u32(1 << 21) + u32(32768)
+            else:
+                body = u32(chan) + u32(rng.randrange(1, 5)) + sstr("refused") + sstr("en")
+            out.append((t, "wellformed", body))
+    rng.shuffle(out)
+    out.append((last, "wellformed", wellformed(rng, last, rng.randrange(len(REQUEST_KEYS)) if last == 98 else None)))
+    return out
+
+
+def run_reply_stratum(ctx, rng, deadline):
+    reps = ctx.pick(1, 3)
+    i = 0
+    for rep in range(reps):
+        for pi, point in enumerate(REPLY_POINTS):
+            for li, last in enumerate(range(93, 101)):
+                if ctx.quick and (li + pi) % 4:
+                    continue  # quick: two of the eight channel-message types per point, all eight over the points
+                i += 1
+                if not ctx.mine(i):
+                    continue
+                if time.time() > deadline:
+                    ctx.count("sessions_not_run_time_cap")
+                    continue
+                desc = dict(stratum="reply types", point=point, probes=reply_probes(rng, last))
+                ctx.count("sessions")
+                ctx.count("reply_type_sessions")
+                try:
+                    run_session(ctx, rng, desc, context=" [reply-type message]", tally="reply_type_read_")
+                except Exception:
+                    ctx.inconclusive("harness error: " + traceback.format_exc()[-900:])
+    for t in REPLY_TYPES:
+        ctx.require("reply_type_read_%d" % t, 20 * reps)
+    for t in range(93, 101):
+        ctx.require("reply_type_read_%d" % t, reps)
+    ctx.require("reply_state_checks", 600 if ctx.quick else 3000)
+    ctx.require("control_reply_handler_dispatches_seen", 8)
+
+
+# ---------------------------------------------------------------------------
+# round 5 (b): the application closes the transport after an unauthenticated CHANNEL_OPEN / GLOBAL_REQUEST was READ
+# and before it is dispatched.  The victim's packetizer (public packetizer_class seam) parks the reader thread right
+# after read_message() returned the probe; the harness calls Transport.close() from another thread, waits until the
+# transport is marked inactive, and lets the reader go on.
+
+CLOSE_POINTS = ["after_service_accept", "after_failed_auth", "after_partial_auth", "after_newkeys"]
+
+
+def run_close_race(ctx, rng, desc, control=False):
+    point = desc["point"]
+    park = ParkCtl()
+    pol = dict(check_port_forward_request=4022) if control else policy_for(point)
+    sess = started(lambda: Sess(rng, policy=pol, victim_kw=lambda rec: dict(packetizer_class=parking_tap(rec, park))),
+                   lambda s: s.start(auth=control))
+    if sess is None:
+        ctx.inconclusive("close race: handshake failed three times")
+        return
+    prefix = "close_race_control_" if control else ""
+    try:
+        if not control and not reach_point(ctx, sess, point, rng):
+            ctx.inconclusive("close race: could not reach auth point %s" % point)
+            return
+        v = sess.victim
+        pmark = Probe.mark()
+        since_n = sess.att.mark()
+        t, pk, body = desc["probes"][0]
+        park.arm((t,))
+        seq = sess.raw(t, body)
+        if seq is None or not park.parked.wait(90):
+            park.release.set()
+            ctx.inconclusive("close race: the victim's reader never parked on the probe")
+            return
+        ctx.count(prefix + "close_race_reader_parked_after_read")
+        closer = None
+        if not control:
+            closer = threading.Thread(target=v.close, daemon=True)
+            closer.start()
+            if not wait_until(lambda: not v.active, 60):
+                park.release.set()
+                ctx.inconclusive("close race: close() did not mark the transport inactive")
+                return
+            ctx.count("close_race_closed_while_parked")
+        park.release.set()
+        if closer is not None:
+            closer.join(60)
+            v.join(30)
+            if v.is_alive():
+                ctx.inconclusive("close race: transport thread still running after close()")
+                return
+        else:
+            sess.fence()
+        if park.resumed:
+            ctx.count(prefix + "close_race_dispatch_resumed")
+        ctx.count(prefix + "close_race_probe_type_%d" % t)
+        judge(ctx, sess, desc, pmark, since_n, control, prefix=prefix if control else None,
+              context=" [local close() between read and dispatch]")
+        if control:
+            ctx.count("close_race_control_sessions")
+        else:
+            ctx.case(("c15-close", repr(desc)), sample=desc if desc.get("sample") else None, nontrivial=park.resumed)
+    except FenceTimeout as e:
+        ctx.inconclusive("close race: fence timeout: %s" % e)
+    finally:
+        park.release.set()
+        sess.close()
+
+
+def run_close_stratum(ctx, rng, deadline):
+    run_close_race(ctx, rng, dict(point="authenticated", probes=[(80, "wellformed", sstr("x") + b"\x01")]), control=True)
+    run_close_race(ctx, rng, dict(point="authenticated",
+                                  probes=[(90, "wellformed", sstr("session") + u32(5) + u32(1 << 21) + u32(32768))]), control=True)
+    reps = ctx.pick(1, 4)
+    i = 0
+    shown = 0
+    for rep in range(reps):
+        for pi, point in enumerate(CLOSE_POINTS):
+            for t, n_var in ((80, len(GLOBAL_KINDS)), (90, len(OPEN_KINDS))):
+                for variant in range(n_var):
+                    if ctx.quick and (variant + pi) % 2:
+                        continue  # quick: every kind at two of the four points
+                    i += 1
+                    if not ctx.mine(i):
+                        continue
+                    if time.time() > deadline:
+                        ctx.count("sessions_not_run_time_cap")
+                        continue
+                    desc = dict(stratum="close race", point=point, probes=[(t, "wellformed", wellformed(rng, t, variant))])
+                    if shown < 1:
+                        desc["sample"] = True
+                        shown += 1
+                    ctx.count("sessions")
+                    try:
+                        run_close_race(ctx, rng, desc)
+                    except Exception:
+                        ctx.inconclusive("harness error: " + traceback.format_exc()[-900:])
+    ctx.require("close_race_closed_while_parked", 20 * reps)
+    ctx.require("close_race_dispatch_resumed", 20 * reps)
+    ctx.require("close_race_probe_type_80", 10 * reps)
+    ctx.require("close_race_probe_type_90", 10 * reps)
+    ctx.require("close_race_control_sessions", 4)
+    ctx.require("close_race_control_service_callbacks_seen", 4)
+    ctx.require("close_race_control_channel_inits_seen", 2)
+
+
 def run(ctx):
     rng = ctx.rng
     install_gss_stub()
@@ -954,6 +1140,8 @@ def run(ctx):
                 ctx.inconclusive("harness error: " + traceback.format_exc()[-900:])
     run_control(ctx, rng)
     run_field_stratum(ctx, rng, ctx.deadline(180, 1300))
+    run_reply_stratum(ctx, rng, ctx.deadline(185, 1320))
+    run_close_stratum(ctx, rng, ctx.deadline(188, 1340))
     run_rekey_stratum(ctx, rng, ctx.deadline(190, 1350))
     run_counting_stratum(ctx, rng, ctx.deadline(200, 1400))
     ctx.require("probes_read_by_victim", 450 if ctx.quick else 2500)
